@@ -246,6 +246,28 @@ CountModels(s, u, nvars) ==
       ml == [l \in L \cup {Len(s.order)} |-> IF l = Len(s.order) THEN nvars ELSE rank(l) + slack]
   IN SatLen(s, u, ml, nvars) * 2^(ml[Lvl(s, u)])
 
+(* _sat_iter: the cubes (partial assignments level -> BOOLEAN) along the paths
+   of u that end in TRUE, complement parity threaded through `value` *)
+RECURSIVE SatIter(_, _, _, _)
+SatIter(s, u, cube, value) ==
+  LET val == IF u < 0 THEN ~value ELSE value IN
+  IF Abs(u) = 1 THEN (IF val THEN {cube} ELSE {})
+  ELSE LET i == Lvl(s, u) IN
+       SatIter(s, Lo(s, u), cube @@ (i :> FALSE), val) \cup SatIter(s, Hi(s, u), cube @@ (i :> TRUE), val)
+SatCubes(s, u) == SatIter(s, u, [x \in {} |-> TRUE], TRUE)
+(* model set of a cube given by LEVELS *)
+CubeByLevel(s, c) == CubeF(NV(s), [k \in {VarNumAtLevel(s, l) : l \in DOMAIN c} |->
+                                     c[CHOOSE l \in DOMAIN c : VarNumAtLevel(s, l) = k]])
+
+(* cube(dvars): conjunction of literals built with var / apply('and') *)
+RECURSIVE CubeOp(_, _, _)
+CubeOp(s, lits, acc) ==      \* lits: sequence of <<level, BOOLEAN>>
+  IF lits = <<>> THEN [s |-> s, r |-> acc]
+  ELSE LET v == FindOrAdd(s, Head(lits)[1], -1, 1)
+           u == IF Head(lits)[2] THEN v.r ELSE -v.r
+           c == Ite(v.s, u, acc, -1)
+       IN CubeOp(c.s, Tail(lits), c.r)
+
 (* ---- reordering on top of swap ---- *)
 RECURSIVE ShiftTo(_, _, _)
 ShiftTo(s, start, end) ==    \* _shift: move the variable at level start to level end
@@ -283,6 +305,14 @@ BubblePass(s, i, rank) ==      \* one pass of _sort_to_order; rank: name -> targ
        ELSE BubblePass(s, i + 1, rank)
 RECURSIVE BubbleN(_, _, _)
 BubbleN(s, k, rank) == IF k = 0 THEN s ELSE BubbleN(BubblePass(s, 0, rank), k - 1, rank)
+(* reorder_to_pairs: for each pair not yet adjacent, shift the upper one down next to the lower *)
+RECURSIVE ReorderToPairs(_, _)
+ReorderToPairs(s, prs) ==      \* prs: sequence of <<x, y>> names
+  IF prs = <<>> THEN s
+  ELSE LET jx == LevelOf(s, Head(prs)[1])  jy == LevelOf(s, Head(prs)[2])
+           lo == Min2(jx, jy)  hi == IF jx > jy THEN jx ELSE jy
+       IN IF hi - lo = 1 THEN ReorderToPairs(s, Tail(prs))
+          ELSE ReorderToPairs(ShiftTo(s, lo, hi - 1), Tail(prs))
 SortToOrder(s, target) ==      \* target: sequence of names, level 0 first
   LET rank == [nm \in Declared(s) |-> (CHOOSE i \in 1..Len(target) : target[i] = nm) - 1]
   IN BubbleN(s, Len(s.order), rank)
